@@ -47,6 +47,22 @@ func (e *Exec) truncDiv(t *Term, p *big.Int) *Term {
 	return e.tt.Ite(neg, qn, q)
 }
 
+// truncDivTerm: x / y truncated toward zero (math/big Quo), y != 0 on the path
+func (e *Exec) truncDivTerm(x, y *Term) *Term {
+	if x.IsConst() && y.IsConst() {
+		return e.tt.Int(new(big.Int).Quo(x.Big, y.Big))
+	}
+	if e.tt.NonNeg(x) && e.tt.NonNeg(y) {
+		return e.tt.IntBin("div", x, y)
+	}
+	zero := e.tt.Int64(0)
+	ax := e.tt.Ite(e.tt.IntCmp("<", x, zero), e.neg(x), x)
+	ay := e.tt.Ite(e.tt.IntCmp("<", y, zero), e.neg(y), y)
+	q := e.tt.IntBin("div", ax, ay)
+	sameSign := e.tt.Eq(e.tt.IntCmp("<", x, zero), e.tt.IntCmp("<", y, zero))
+	return e.tt.Ite(sameSign, q, e.neg(q))
+}
+
 // half-even ("banker's") rounding of t / 10^18
 func (e *Exec) chop(t *Term) *Term {
 	if t.IsConst() {
@@ -232,6 +248,30 @@ func init() {
 	reg("("+sdkT+"Int).SubRaw", func(e *Exec, a []Value) Value {
 		return bv(e.ovf(e.tt.IntBin("-", e.big(a[0]), e.sbv2int(a[1].(*Term))), "Int"))
 	})
+	// Int.Quo / Int.QuoRaw / Int.Mod: truncated division like math/big's Quo/Rem; a zero divisor panics
+	intDiv := func(op string, raw bool) func(e *Exec, a []Value) Value {
+		return func(e *Exec, a []Value) Value {
+			x := e.big(a[0])
+			var y *Term
+			if raw {
+				y = e.sbv2int(a[1].(*Term))
+			} else {
+				y = e.big(a[1])
+			}
+			if e.branch(e.tt.Eq(y, e.tt.Int64(0))) {
+				panic(goPanic{"division by zero"})
+			}
+			q := e.truncDivTerm(x, y)
+			if op == "quo" {
+				return bv(q)
+			}
+			return bv(e.tt.IntBin("-", x, e.tt.IntBin("*", q, y)))
+		}
+	}
+	reg("("+sdkT+"Int).Quo", intDiv("quo", false))
+	reg("("+sdkT+"Int).QuoRaw", intDiv("quo", true))
+	reg("("+sdkT+"Int).Mod", intDiv("mod", false))
+	reg("("+sdkT+"Int).ModRaw", intDiv("mod", true))
 	reg("("+sdkT+"Int).ToDec", func(e *Exec, a []Value) Value { return bv(e.tt.IntBin("*", e.big(a[0]), e.tt.Int(prec))) })
 	reg("("+sdkT+"Int).Int64", func(e *Exec, a []Value) Value {
 		t := e.big(a[0])
